@@ -78,6 +78,41 @@ func lessShape(fn *ssa.Function) (field, op string, why string) {
 	if cmp == nil {
 		return "", "", "no comparison returned"
 	}
+	// which return is the primary key: the one taken where the keys differ. `if a.K == b.K { return tie }; return a.K < b.K`
+	// puts it last, `if a.K != b.K { return a.K < b.K }; return tie` puts it first.
+	side := func(b *ssa.BinOp) string {
+		blk := b.Block()
+		if len(blk.Preds) != 1 {
+			return ""
+		}
+		iff, ok := blk.Preds[0].Instrs[len(blk.Preds[0].Instrs)-1].(*ssa.If)
+		if !ok {
+			return ""
+		}
+		c, ok := iff.Cond.(*ssa.BinOp)
+		if !ok || (c.Op != token.EQL && c.Op != token.NEQ) {
+			return ""
+		}
+		kx, _ := elemField(c.X)
+		ky, _ := elemField(c.Y)
+		if kx == "" || kx != ky {
+			return ""
+		}
+		onTrue := blk.Preds[0].Succs[0] == blk
+		if (c.Op == token.EQL && onTrue) || (c.Op == token.NEQ && !onTrue) {
+			return "equal:" + kx
+		}
+		return "differ:" + kx
+	}
+	differForm := false
+	for _, b := range all {
+		if s := side(b); strings.HasPrefix(s, "differ:") {
+			if f, _ := elemField(b.X); f == strings.TrimPrefix(s, "differ:") {
+				cmp = b
+				differForm = true
+			}
+		}
+	}
 	// several returns on the same field in opposite strict directions, selected by a captured flag: the direction
 	// is not decided here ("*"), strictness and key are
 	if len(all) == 2 {
@@ -117,6 +152,10 @@ func lessShape(fn *ssa.Function) (field, op string, why string) {
 		ky, _ := elemField(c.Y)
 		onTrue := blk.Preds[0].Succs[0] == blk
 		eq := (c.Op == token.EQL && onTrue) || (c.Op == token.NEQ && !onTrue)
+		if differForm && blk.Preds[0] == cmp.Block().Preds[0] {
+			// the other side of the primary's own test: the keys are equal there
+			eq = true
+		}
 		if kx == fx && ky == fx && !eq {
 			return fx, "", "the tie-break on the secondary key is taken when the primary keys (" + fx + ") differ, so the order is not by " + fx
 		}
